@@ -3,24 +3,24 @@
 import json, os
 HERE = os.path.dirname(os.path.dirname(os.path.abspath(__file__)))
 CLAIMED = {
- "C01": ("must-pass-through of the valid-element grid and reshape (def-use resolver), axis-order decision table over cube shapes, measure-presence lint, sibling dict->NaN lint, AXIS axis-role abstract interpretation, FLOW provenance; EFFECTS: payload arrays never written by the layers that receive them; EFFECTS with origin of the written object (no layer writes into what comes from the cube-measure layer); nested missing-marker contradiction rule; element-value type-test lint", "4 C01 and 8"),
- "C02": ("AXIS axis-role abstract interpretation vs one eligibility rule; block templates; definedness decision tables over DIMENSION_TYPE; mask comparand dataflow; FLOW provenance; constructor-setting forwarding of rebuilt cubes; lint scope closed over private helpers (int casts, extent-guessed orientation); 0-D table base provenance", "4 C02 and 8"),
- "C03": ("block templates + rational normal form (NORM); AXIS containment/partition; index-space lints (position of a filtered list); EFFECTS scoped to the proportion classes; iteration-domain rule: each element enters a subtotal at most once", "4 C03 and 8"),
+ "C01": ("must-pass-through of the valid-element grid and reshape (def-use resolver), axis-order decision table over cube shapes, measure-presence lint, sibling dict->NaN lint, AXIS axis-role abstract interpretation, FLOW provenance; EFFECTS: payload arrays never written by the layers that receive them; EFFECTS with origin of the written object (no layer writes into what comes from the cube-measure layer); nested missing-marker contradiction rule; element-value type-test lint; decision table of the count measure each Cube accessor hands out; tolerance-comparison lint over the payload readers; list slots addressed by position, not id", "4 C01 and 8"),
+ "C02": ("AXIS axis-role abstract interpretation vs one eligibility rule; block templates; definedness decision tables over DIMENSION_TYPE; mask comparand dataflow; FLOW provenance; constructor-setting forwarding of rebuilt cubes; lint scope closed over private helpers (int casts, extent-guessed orientation); 0-D table base provenance; decision table of the unweighted count source; positional provenance of Element.index (typedef order)", "4 C02 and 8"),
+ "C03": ("block templates + rational normal form (NORM); AXIS containment/partition; index-space lints (position of a filtered list); EFFECTS scoped to the proportion classes; iteration-domain rule: each element enters a subtotal at most once; (dimension type x transforms) table of the subtotal-free types", "4 C03 and 8"),
  "C04": ("symbolic subtotal algebra; valid-element dependence of the term sets; index-array store / pairwise fancy-index / filtered-position lints; flag and NaN-class tables; payload/display typing of zip with helper parameters bound to call-site arguments; DECTAB over abstract index-set classes and dimension types; iteration-domain rule (terms once); DECTAB over DIMENSION_TYPE of the subtotal-free types; EFFECTS scoped to insertion blocks; decision table NaN-flag vs source of the counts over the count measures present", "4 C04 and 8"),
- "C05": ("FLOW non-interference; payload/display coordinate typing incl. elementwise arithmetic and zip; reductions over assembled arrays (display-reduction dataflow lint); ORDERKIT de-duplication idioms; order-index sign lint; rendering typestate; payload-only operands of smoothers, order-sensitive numpy operations and collators", "4 C05 and 8"),
+ "C05": ("FLOW non-interference; payload/display coordinate typing incl. elementwise arithmetic and zip; reductions over assembled arrays (display-reduction dataflow lint); ORDERKIT de-duplication idioms; order-index sign lint; rendering typestate; payload-only operands of smoothers, order-sensitive numpy operations and collators; position-parameter truthiness (helper parameters bound to loop counters at call sites)", "4 C05 and 8"),
  "C06": ("decision tables (slice expression, strand factory over every dimension type), must-pass-through of the slice expression, valid-element index space of the partition index, guard dominance of the cube-set edits, argument/parameter agreement (keyword-aware); payload-value truthiness lint; sibling-partition read lint (positive control)", "4 C06 and 8"),
- "C07": ("ordering-key lattice; DECTAB anchor table; ORDERKIT recogniser of the explicit-order algorithm; truth-tested positions (def-use lint); order-index sign lint; rendering index-space agreement; payload-space operands of collator / order-helper calls (coordinate typing)", "4 C07 and 8"),
- "C08": ("keyword->measure tables vs public properties up to monotone maps; NaN-bucket / direction recognisers through helpers; accidental-ValueError lint under the swallowing fallback; exception-type lint; statement-level rule: lazy sort values are evaluated inside the try body of the fallback", "4 C08 and 8"),
+ "C07": ("ordering-key lattice; DECTAB anchor table; ORDERKIT recogniser of the explicit-order algorithm; truth-tested positions (def-use lint); order-index sign lint; rendering index-space agreement; payload-space operands of collator / order-helper calls (coordinate typing); EFFECTS over the id shim (transforms rewritten in a copy); nullable-key contradiction among readers of the transforms", "4 C07 and 8"),
+ "C08": ("keyword->measure tables vs public properties up to monotone maps; NaN-bucket / direction recognisers through helpers; accidental-ValueError lint under the swallowing fallback; exception-type lint; statement-level rule: lazy sort values are evaluated inside the try body of the fallback; quantised-sort-key lint; EFFECTS over the id shim", "4 C08 and 8"),
  "C09": ("FLOW provenance and dependence of the pruning decision; AXIS support of pruning bases; must-pass-through of the hidden filter over summarised orders; order-index sign lint; DECTAB over DIMENSION_TYPE of the subtotal-free types; name-agnostic hidden-filter recogniser; model execution of Elements.from_typedef (insertion-level hide survives element transforms); source of the empties handed to a collator", "4 C09 and 8"),
  "C10": ("mirror comparison under the transposition rewrite T (AXIS normal forms, canonicalised and orientation-specialised expressions) + FLOW read-set equality of row/column twins; extent-guessed-orientation lint over every comparison, orientation operation followed into helpers; decision table of the row / column order-helper dispatch under the transposition renaming; filtered-position lint over the subtotal modules", "4 C10 and 8"),
- "C11": ("rational normal form (NORM) identity of the three-term variance; block templates; pairwise fancy-index lint on the term counts; EFFECTS scoped to the variance classes", "4 C11 and 8"),
+ "C11": ("rational normal form (NORM) identity of the three-term variance; block templates; pairwise fancy-index lint on the term counts; EFFECTS scoped to the variance classes; generic lints for int pre-allocation and `rows_x or columns_x`", "4 C11 and 8"),
  "C12": ("radical normal form (NORM) of the residual; guard classification by disjunct; arrangement invariance of the rank test; block argument pairing; EFFECTS scoped to the z-score / p-value classes", "4 C12 and 8"),
  "C13": ("NORM formulas + symbolic swap; NaN polarity of the threshold; effective-base presence (guard atoms); block/reference tables; must-pass-through of the display translation; AXIS overlap bases; block-structure mirror of the two column bases forming the effective base; guard conjunct classification of the squared-weight switch; sibling cross-check of marginals read off one line of a 2-D base; no mask between t and p narrower than ~isnan; axes of the overlap tensors restricted to valid elements", "4 C13 and 8"),
- "C14": ("NORM formulas of the scale statistics; structural axis/mask rules of the std-dev helpers; deviation-form (numerical stability) lint; median piecewise tests; statistic-truthiness lint; display-reduction dataflow lint on the numeric-value presence tests", "4 C14 and 8"),
+ "C14": ("NORM formulas of the scale statistics; structural axis/mask rules of the std-dev helpers; deviation-form (numerical stability) lint; median piecewise tests; statistic-truthiness lint; display-reduction dataflow lint on the numeric-value presence tests; truth tests of numeric VALUES (0 is a value) vs of a boolean array", "4 C14 and 8"),
  "C15": ("block-index rule on share-of-sum denominators; totals-last rule (NaN-skipping total never fed to NaN-propagating subtotals); signed-total lint (no order comparison of a sum with zero, no sign-destroying operation under the division line; helper functions inlined)", "4 C15 and 8"),
- "C16": ("AXIS on the four baseline variants; DECTAB cascade over the count measures present; valid-element index space of the table selection and single translation of the slice argument; NORM index formula; FLOW independence from display transforms", "4 C16 and 8"),
+ "C16": ("AXIS on the four baseline variants; DECTAB cascade over the count measures present; valid-element index space of the table selection and single translation of the slice argument; NORM index formula; FLOW independence from display transforms; cache slots of factory-made public accessors", "4 C16 and 8"),
  "C17": ("NORM scaling formulas (aliases followed); sibling selection tables; difference blanking by axis (def-use) incl. tuple-as-index lint; index-space zip; DECTAB over abstract JSON shapes of the filter statistics", "4 C17 and 8"),
- "C18": ("EFFECTS write inventory keyed by class and written key with interprocedural parameter freshness; process-wide cache lint; retraction (DECTAB); descriptor / read-only-array / taint rules", "4 C18 and 8"),
+ "C18": ("EFFECTS write inventory keyed by class and written key with interprocedural parameter freshness; process-wide cache lint; retraction (DECTAB); descriptor / read-only-array / taint rules; masked writes into uninitialised (np.empty) buffers", "4 C18 and 8"),
  "C19": ("DECTAB decision list of the id translation over spelling classes and dimension models; composed late-translation and element-transform key models; must-pass-through of every reference slot; zip of a filtered with an unfiltered view of one list (members fully expanded); model execution of lookup tables built by statements, Python hashing semantics for malformed references; nullable-key contradiction among readers of the transforms", "4 C19 and 8"),
  "C20": ("decision tables of the smoothing guard and smoother factory; spec pass-through; taint of the smoothed blocks; FLOW provenance of the smoother's operand; dependence-footprint lint (arithmetic declined); smoothed-operand rule (no NaN masking, no quotient of smoothed series); which blocks of every smoothed variant pass through the smoother; result of smooth() used verbatim; smoothed variant minus smoothing == unsmoothed twin (measure-block references unfolded)", "4 C20 and 8"),
 }
